@@ -900,7 +900,13 @@ fn sticky_case(reg: Reg, front: Front, rng: &mut Prng, col: &mut Collector) {
         let port = if rng.chance(1, 4) { 0 } else { 5 };
         let data: &[u8] = if port == 0 { &[] } else { &[9] };
         // a rejected frame in between must not clear sticky answers (C07 overlap) - not injected here
-        let t = link.txn(data, port, false, &Script::silent());
+        // one uplink in three asks for an acknowledgement that never comes: what it carried is spent all
+        // the same (the application decides about sending the data again, the answers are not data)
+        let confirmed = rng.chance(1, 3);
+        if confirmed {
+            col.event("sticky_unanswered_confirmed_uplink");
+        }
+        let t = link.txn(data, port, confirmed, &Script::silent());
         let Some(u) = &t.up else { return };
         let Ok(c) = parse_uplink_cmds(&u.mac_bytes()) else {
             col.violation("C08|sticky|answers-not-whole", "answers are not whole commands", ctx("sticky", json!({"uplink": n})));
